@@ -326,23 +326,23 @@ def core_suite(ctx, n, configs=((2, 100, False), (3, 40, True), (8, 12, False), 
     cases, jobs, srcs = [], [], {}
     for i in range(n):
         seed = ctx.rng.getrandbits(40)
-        src = gen_core.gen(seed, faults=faults)
+        src, args = gen_core.gen_with_args(seed, faults=faults)
         w, s, un = configs[i % len(configs)]
         cid = '%s%d_%d' % (label, i, seed)
         try:
-            c = dump_ast.case(cid, src, [], w=w, s=s, unchecked=un, fuel=300000)
+            c = dump_ast.case(cid, src, args, w=w, s=s, unchecked=un, fuel=300000)
         except Exception as e:
             ctx.violations.append(dict(what='%s: valid core program rejected by the compiler: %s: %s' % (label, type(e).__name__, str(e)[:200]),
-                                       kind='REJECTED', source=src, args=[], config=dict(w=w, stack=s, unchecked=un)))
+                                       kind='REJECTED', source=src, args=args, config=dict(w=w, stack=s, unchecked=un)))
             continue
         k = dict(c); k['id'] = cid + '#K'; k['opts'] = c['opts'] + ['core', 'stackwords=%d' % s]
         cases += [c, k]
-        srcs[cid] = (src, w, s, un)
-        jobs.append((cid, src, [], w, s, un, 300000))
+        srcs[cid] = (src, args, w, s, un)
+        jobs.append((cid, src, args, w, s, un, 300000))
     res = hidlib.run_parallel(cases, chunk=80)
     tally = {}
     diffs, semdiffs = [], []
-    for cid, (src, w, s, un) in srcs.items():
+    for cid, (src, args, w, s, un) in srcs.items():
         r = res.get(cid + '#K', {}).get('core')
         if r is None:
             tally['missing'] = tally.get('missing', 0) + 1
@@ -350,12 +350,12 @@ def core_suite(ctx, n, configs=((2, 100, False), (3, 40, True), (8, 12, False), 
         v = r.outcome.split(':')[0]
         tally[v] = tally.get(v, 0) + 1
         if r.outcome != 'ok':
-            diffs.append((src, dict(w=w, stack=s, unchecked=un), r.outcome[:600]))
+            diffs.append((src, dict(w=w, stack=s, unchecked=un, args=args), r.outcome[:600]))
             continue
         ref = res.get(cid, {}).get('src')
         if ref is not None and r.trace != 'fuel' and ref.outcome == 'terminal':
             if r.events != ref.events:
-                semdiffs.append((src, dict(w=w, stack=s, unchecked=un), r.trace[:200], ref.trace[:200]))
+                semdiffs.append((src, dict(w=w, stack=s, unchecked=un, args=args), r.trace[:200], ref.trace[:200]))
             else:
                 tally['semantics_agree'] = tally.get('semantics_agree', 0) + 1
     st = ctx.stats.setdefault('core_correspondence', {})
@@ -376,10 +376,10 @@ def core_suite(ctx, n, configs=((2, 100, False), (3, 40, True), (8, 12, False), 
         for i, (src, cfg, _) in enumerate(diffs[:40]):
             for w in (2, 4):
                 for un in (False, True):
-                    extra.append(('%sx%d_%d%d' % (label, i, w, un), src, [], w, cfg['stack'], un, 300000))
+                    extra.append(('%sx%d_%d%d' % (label, i, w, un), src, cfg['args'], w, cfg['stack'], un, 300000))
         for i in range(200):
-            src = gen_core.gen(ctx.rng.getrandbits(40), faults=0.6)
-            extra.append(('%sy%d' % (label, i), src, [], ctx.rng.choice([2, 3, 4, 8]), 100, False, 300000))
+            src, xargs = gen_core.gen_with_args(ctx.rng.getrandbits(40), faults=0.6)
+            extra.append(('%sy%d' % (label, i), src, xargs, ctx.rng.choice([2, 3, 4, 8]), 100, False, 300000))
         jobs += extra
         ctx.stats['core_correspondence']['extra_search_jobs'] = len(extra)
     return jobs
